@@ -56,15 +56,16 @@ func (s *sliceIter) FeatureID() compact.FeatureID { return s.ids[s.i-1] }
 // ---- one case --------------------------------------------------------------------------------
 
 type pcase struct {
-	c     *hx.Ctx
-	nt    compact.NamespaceTable
-	names []b6.Namespace // FromEncoded (sorted)
-	ids   []b6.FeatureID
-	buf   []byte
-	it    *compact.Iterator
-	pos   int // index in ids of the last id the iterator reported (-1 = not started)
-	dead  bool
-	advs  int
+	c        *hx.Ctx
+	nt       compact.NamespaceTable
+	names    []b6.Namespace // FromEncoded (sorted)
+	ids      []b6.FeatureID
+	buf      []byte
+	it       *compact.Iterator
+	pos      int // index in ids of the last id the iterator reported (-1 = not started)
+	dead     bool
+	panicked bool // after a panic the iterator is abandoned (a panicking Advance may already have called Next)
+	advs     int
 }
 
 func (p *pcase) table(in []b6.Namespace) {
@@ -106,12 +107,14 @@ func (p *pcase) iter() {
 	p.it = compact.NewIterator(p.buf, &p.nt)
 	p.pos = -1
 	p.dead = false
+	p.panicked = false
 	p.c.Op("iter", "ok")
 }
 
 func (p *pcase) track(ans string) {
 	if !strings.HasPrefix(ans, "true ") {
 		p.dead = true
+		p.panicked = p.panicked || ans == "panic"
 		return
 	}
 	s := ans[5:]
@@ -386,7 +389,7 @@ func (p *pcase) walk(budget int) {
 			p.next()
 		}
 	}
-	if p.dead && r.Chance(1, 4) && p.it != nil { // calls after the first false: compared with the model only
+	if p.dead && !p.panicked && r.Chance(1, 4) && p.it != nil { // calls after the first false: compared with the model only
 		p.c.Note("after-false")
 		func() {
 			defer func() { recover() }()
@@ -589,8 +592,8 @@ func corpus(c *hx.Ctx) {
 
 func main() {
 	hx.Main(hx.Family{
-		Name: "c08",
-		Rule: "one namespace table + one id list (groups in table order; delta shapes forcing every varint width at every block offset, groups ending at block ends, values up to 2^64-1, lengths 0..5000; 1 in 40 unsorted/duplicate, 1 in 80 with a namespace outside the table) filled and marshalled by compact.PostingList, then 1 drain + 2..5 mixed Next/Advance walks on compact.Iterator (targets: present ids, value±1, namespace begin/end, namespaces absent from the list, absent types, behind the cursor, outside the table); non-trivial = more than one 64-byte block or more than one namespace, and at least one Advance",
+		Name:     "c08",
+		Rule:     "one namespace table + one id list (groups in table order; delta shapes forcing every varint width at every block offset, groups ending at block ends, values up to 2^64-1, lengths 0..5000; 1 in 40 unsorted/duplicate, 1 in 80 with a namespace outside the table) filled and marshalled by compact.PostingList, then 1 drain + 2..5 mixed Next/Advance walks on compact.Iterator (targets: present ids, value±1, namespace begin/end, namespaces absent from the list, absent types, behind the cursor, outside the table); non-trivial = more than one 64-byte block or more than one namespace, and at least one Advance",
 		Quick:    2500,
 		Thorough: 30000,
 		Corpus:   corpus,
